@@ -71,6 +71,8 @@ pub mod metrics {
     pub use crate::metrics_classification::{
         BinaryClassification, ConfusionMatrix, ReceiverOperatingCharacteristic, ToConfusionMatrix,
     };
+    #[cfg(linfa_verif)]
+    pub use crate::metrics_classification::verif_hooks_c05;
     pub use crate::metrics_clustering::SilhouetteScore;
     pub use crate::metrics_regression::{MultiTargetRegression, SingleTargetRegression};
 }
